@@ -10,6 +10,7 @@ mod c10;
 mod c11;
 mod c14;
 mod c18;
+mod c19;
 mod cell;
 mod gen;
 mod gen_stl;
@@ -26,6 +27,7 @@ fn replay_dispatch(check: &str, v: &Value) -> Vec<(String, String)> {
         "C11" => c11::replay_all(&v["case"]),
         "C14" => c14::replay_all(&v["case"]),
         "C18" => c18::replay_all(&v["case"]),
+        "C19" => c19::replay_all(&v["case"]),
         _ => vec![("harness:unknown-check".into(), check.to_string())],
     }
 }
@@ -67,6 +69,7 @@ fn main() {
         }
         Some("C10") => c10::run(args.get(1).map(|s| s.as_str()).unwrap_or("quick"), seed),
         Some("C11") => c11::run(args.get(1).map(|s| s.as_str()).unwrap_or("quick"), seed),
+        Some("C19") => c19::run(args.get(1).map(|s| s.as_str()).unwrap_or("quick"), seed),
         Some("C18") => c18::run(args.get(1).map(|s| s.as_str()).unwrap_or("quick"), seed),
         Some("C14") => c14::run(args.get(1).map(|s| s.as_str()).unwrap_or("quick"), seed),
         _ => {
